@@ -69,11 +69,13 @@ func (r *volatileTaskRepo) MarkAsDispatched(ctx context.Context, id string) erro
 	defer r.mu.Unlock()
 
 	p, err := r.Peek(ctx)
-	if err != nil {
+	if err != nil && !def.IsExhausted(err) {
 		return err
 	}
 
-	if p.Id == id {
+	// An exhausted store has no head at all: like a different head,
+	// it means the task was cancelled after it had been fetched.
+	if err == nil && p.Id == id {
 		_, err := r.Pop(ctx)
 		if err != nil {
 			return err
@@ -89,7 +91,7 @@ func (r *volatileTaskRepo) MarkAsDispatched(ctx context.Context, id string) erro
 		}
 	}
 
-	return nil
+	return err
 }
 
 func (r *volatileTaskRepo) MarkAsDone(ctx context.Context, id string, err error) error {
